@@ -24,6 +24,9 @@ def draw_funds(rng, rich=True):
         return None
     if c < 0.55 and not rich:
         return [{"denom": "uatom", "amount": str(10**30)}]  # more than anybody owns
+    if c < 0.7:
+        # the same denom listed twice, or denoms out of order: the handler must see the coins as given
+        return [{"denom": d, "amount": str(rng.randrange(1, 500))} for d in rng.choice([["uatom", "uatom"], ["ujuno", "uatom"], ["uatom", "ujuno", "uatom"]])]
     return [{"denom": d, "amount": str(rng.randrange(1, 1000))} for d in rng.sample(["uatom", "ujuno"], rng.choice([1, 2]))]
 
 
@@ -153,10 +156,15 @@ class History:
         label = rng.choice([None, "lbl" + str(step), "Contract", "a b c"])
         admin = rng.choice([None, self.accounts[3], self.accounts[3], self.accounts[0]])
         funds = draw_funds(rng, rich=rng.random() < 0.9)
-        salt = rng.choice([None, None, None, base64.b64encode(bytes(rng.randrange(256) for _ in range(rng.choice([1, 8, 32])))).decode()])
+        salt = rng.choice([None, None, None, base64.b64encode(bytes(rng.randrange(256) for _ in range(rng.choice([0, 1, 8, 32, 65])))).decode()])
         sender = rng.choice(self.accounts[:4])
         plan, cls = draw_plan(rng, prog, inst, self.canon, self.accounts)
         ca = {"op": "mtp:instantiate", "code_id": code, "args": texts, "label": label, "admin": admin, "funds": funds, "salt": salt, "sender": sender}
+        if rng.random() < 0.3:
+            # setters called repeatedly: only the last value counts (None clears the admin again)
+            ca["admin_seq"] = [rng.choice([self.accounts[1], self.accounts[3], None]) for _ in range(rng.choice([1, 2]))]
+            ca["label_seq"] = ["old label"] if label is not None else []
+            ca["funds_seq"] = [[{"denom": "ujuno", "amount": "3"}]] if funds is not None else []
         if code == 9999:
             return  # a CodeId handle for an unknown code cannot be built through the helper
         key = "instantiate2" if salt is not None else "instantiate"
